@@ -36,7 +36,7 @@ def closure(fwd, x):
 
 
 def parse_lazy(txt):
-    out = {"count": None, "idx": {}, "fwd": {}, "rev": {}, "deps": {}, "load": [], "inv": {}}
+    out = {"count": None, "idx": {}, "fwd": {}, "rev": {}, "deps": {}, "load": [], "inv": {}, "invi": {}}
     for l in txt.split("\n"):
         p = l.split()
         if not p:
@@ -51,8 +51,14 @@ def parse_lazy(txt):
             out["deps"][int(p[1])] = sorted(int(x) for x in p[2:])
         elif p[0] == "LOAD":
             out["load"].append((int(p[1]), l.split(" ", 2)[2] if len(p) > 2 else ""))
+            out["inv"][int(p[1])] = {}        # the INV lines that follow are those of this load (the last load of an instance counts)
+            out["invi"][int(p[1])] = []
         elif p[0] == "INV":
-            out["inv"].setdefault(int(p[1]), {})[p[2]] = [int(x) for x in p[3:]]
+            # an attribute printed twice (two map entries for one inverse attribute) keeps everything that was printed
+            out["inv"].setdefault(int(p[1]), {}).setdefault(p[2].lower(), []).extend(int(x) for x in p[3:])
+        elif p[0] == "INVI":
+            # the copy of an inherited inverse attribute that another part of an instance in external mapping holds
+            out["invi"].setdefault(int(p[1]), []).append((p[2].lower(), p[3].lower(), [int(x) for x in p[4:]]))
     return out
 
 
@@ -141,7 +147,9 @@ def refs_through(S, y, E, attr):
     ent = y["parts"][0][0]
     if not S.isa(ent, E):
         return None
-    return refs_of(y["parts"][0][1][[a[1] for a in S.all_attrs(ent)].index(attr)])
+    # the attribute of that name which E declares or inherits (ent may have another one of the same name from elsewhere)
+    idx = [j for j, a in enumerate(S.all_attrs(ent)) if a[1] == attr and S.isa(E, a[0])]
+    return refs_of(y["parts"][0][1][idx[0]])
 
 
 def _i(i, kw, toks, params):
@@ -479,16 +487,25 @@ def main(tier, seed, pid):
                 # C11: inverse attributes of every loaded instance
                 for x in set(o):
                     inst = byid[x]
-                    if inst["complex"]:
-                        continue
-                    ent = inst["parts"][0][0]
                     decls = []
-                    for e_ in [ent] + S.supertypes(ent):
-                        decls += S.INVERSES.get(e_, [])
+                    # (an instance in external mapping has the inverse attributes of each of its parts)
+                    for ent in [pe for (pe, _v) in inst["parts"]]:
+                        for e_ in [ent] + S.supertypes(ent):
+                            for d_ in S.INVERSES.get(e_, []):
+                                if (e_,) + tuple(d_) not in decls:      # an ancestor reached along two paths declares its inverses once
+                                    decls.append((e_,) + tuple(d_))
+                    if inst["complex"] and decls:
+                        hist["inverse_of_complex_instance"] = hist.get("inverse_of_complex_instance", 0) + 1
+                    for (part_, key_, ids_) in lz2["invi"].get(x, []):
+                        if sorted(ids_) != sorted(lz2["inv"].get(x, {}).get(key_, [])):
+                            what = "#%d in external mapping: its part %s holds %s for the inherited %s, the declaring part %s" % (
+                                x, part_, ids_, key_, lz2["inv"].get(x, {}).get(key_))
+                    if what:
+                        break
                     enames = sorted(S.ENTITIES)
                     tid = {e_: j + 1 for j, e_ in enumerate(enames)}
                     isa_pairs = " ".join("%d:%d" % (tid[a], tid[b]) for a in enames for b in enames if S.isa(a, b))
-                    for (iname, E, attr, _agg) in decls:
+                    for (owner_, iname, E, attr, _agg) in decls:
                         hist["inverse_checked"] += 1
                         exp = sorted(y["id"] for y in order if x in (refs_through(S, y, E, attr) or []))
                         exp_simple = sorted(y["id"] for y in order if not y["complex"] and x in (refs_through(S, y, E, attr) or []))
@@ -499,7 +516,7 @@ def main(tier, seed, pid):
                             hist["inverse_multi"] = hist.get("inverse_multi", 0) + 1
                         if exp != exp_simple:
                             hist["inverse_with_complex_referrer"] = hist.get("inverse_with_complex_referrer", 0) + 1
-                        got = lz2["inv"].get(x, {}).get(iname)
+                        got = lz2["inv"].get(x, {}).get("%s.%s" % (owner_.lower(), iname))
                         if got is None:
                             got = []
                         if sorted(got) != exp:
